@@ -152,3 +152,14 @@ CONTRACTS['scenario_no_format_records_per_logical_file_in_order'] = dict(
              ('each-record-refers-to-the-object-it-was-added-under', 'result[4] == True and result[5] == True and result[6] == True'),
              ('payload-kept', 'result[7] == p1'),
              ('the-other-logical-file-holds-none-of-them', 'result[8] == 0')])
+
+# C20 for item classes with a constructor of their own: whatever the subclass does around the base constructor (checks of its own before
+# or AFTER super().__init__ - round 7, C20-N), a call it rejects leaves the set as it was
+CONTRACTS['ZoneItem.__init__[verified]'] = dict(
+    target='ZoneItem.__init__', props=['C20'], globals=GC, self_fields={},
+    params={'name': 'str', 'parent': LIVE_SET, 'kwargs': {'domain': 'oneof[const:"TIME",const:"BOREHOLE-DEPTH"]', 'maximum': 'oneof[int,opq:datetime]', 'minimum': 'oneof[int,opq:datetime]'}}, returns='none',
+    ref_fields=REF_FIELDS, requires=['not in_seq(self, parent._eflr_item_list)'],
+    may_raise=['ValueError', 'AnyException'],
+    ensures=[('registered', f'{ITEMS} == old({ITEMS}) + [self]'), ('name-kept', 'self.name == name')],
+    modifies=['self.*', 'self.*.parent_eflr', 'parent._eflr_item_list'], exc_modifies=['self.*', 'self.*.parent_eflr'],
+    exc_ensures=[('rejected-zone-leaves-the-set-unchanged', UNCHANGED)])
